@@ -1051,7 +1051,10 @@ def register(R):
         ensures=ns_tasks_post, effects=ns_tasks_effects, raises={},
         loops={0: LoopSpec(invariant=ns_tasks_loop_inv, havoc_heap=ns_tasks_havoc, local_types={'tasks': TASKS_T})},
     )
-    R.contract(f'{DL}:ImmediatelyWriteIOGetObjectTask._handle_io', params={}, inline=True, loops={0: trivial_loop()})
+    # immediate writes: every write task that was built is run, once, right away
+    R.contract(f'{DL}:ImmediatelyWriteIOGetObjectTask._handle_io', params={}, inline=True, loops={0: LoopSpec(
+        invariant=lambda l: {}, iteration_checks=lambda l0, l1, evs: {'each_write_task_is_run_exactly_once': (B(
+            len([e for e in evs if e.kind == 'ext' and e.name == 'io_task.()']) == 1), ['C02', 'C16'])})})
 
     # queued writes of streaming destinations: the defer queue releases what is next, and the released writes are
     # handed to the single-threaded IO executor INSIDE the critical section that released them -- otherwise two request
@@ -1199,7 +1202,13 @@ def register(R):
         io = [e for e in evs if e.kind == 'call' and (e.name.endswith('queue_file_io_task') or e.name.endswith('get_io_write_task'))]
         io_any = [e for e in evs if e.kind == 'call' and e.name.endswith(('queue_file_io_task', 'get_io_write_task', 'get_io_write_tasks'))]
         rd = [e for e in evs if e.kind == 'ext' and e.name == 'respdict.read']
+        # immediate mode: the write tasks built for this chunk are run right here (concretely built ones; the symbolic
+        # list of a streaming destination is covered by the loop contract of _handle_io)
+        built = [e.result for e in evs if e.kind == 'call' and e.name.endswith('get_io_write_task') and isinstance(e.result, Opaque)]
+        ran = [e.recv for e in evs if e.kind == 'ext' and e.name == 'io_task.()']
+        immediate = l1.st.obj(l1.st.env['$self']).cls.name == 'ImmediatelyWriteIOGetObjectTask' if '$self' in l1.st.env else False
         out = {'one_network_read_per_chunk': (B(len(rd) == 1), ['C02']),
+               'immediate_write_tasks_are_run_once_each': (B((not immediate) or all(sum(1 for r in ran if r is t) == 1 for t in built)), ['C02', 'C16']),
                # a completed iteration is one whose chunk was accepted (the transfer was not done): it is handed to IO
                'every_accepted_chunk_is_handed_to_io_exactly_once': (B(len(io_any) == 1), ['C02', 'C16'])}
         if len(io) == 1:
